@@ -143,12 +143,15 @@ def listing(root):
 
 
 def read_back(path):
-    if path.endswith(".npy"):
-        return np.load(path)
-    if path.endswith(".fits"):
-        from astropy.io import fits
+    try:
+        if path.endswith(".npy"):
+            return np.load(path)
+        if path.endswith(".fits"):
+            from astropy.io import fits
 
-        return np.asarray(fits.getdata(path))
+            return np.asarray(fits.getdata(path))
+    except Exception:  # noqa: BLE001 - not a file this run can have written
+        return np.array([["unreadable"]], dtype=object)
     return None
 
 
@@ -219,7 +222,7 @@ def check_run(scn, s, op, mode, tree, before, viol, stats, feat, seen_dirs):
                     viol.append({"clause": "C19.attributed", "signature": f"C19.wrong-extension@{feat}", "detail": {"file": path, "format": lab}})
                 got = read_back(path)
                 if got is not None:
-                    if got.shape != np.asarray(want).shape or not np.array_equal(got.astype(float), np.asarray(want, dtype=float)):
+                    if got.dtype == object or got.shape != np.asarray(want).shape or not np.array_equal(got.astype(float), np.asarray(want, dtype=float)):
                         viol.append({"clause": "C19.attributed", "signature": f"C19.file-content@{feat}+{lab}", "detail": {"file": os.path.basename(path), "bucket": b, "run": r, "combo": combo, "got": got.ravel()[:3].tolist(), "want": np.asarray(want).ravel()[:3].tolist()}})
     if len(reported_all) != len(set(reported_all)):
         viol.append({"clause": "C19.bijection", "signature": f"C19.one-file-reported-twice@{feat}", "detail": sorted(reported_all)})
